@@ -237,12 +237,7 @@ pub fn run_script(seed: u64, script: &[String]) -> Vec<String> {
 }
 
 fn is_one(g: &G<'_>) -> bool {
-    // `QueryOne` variants are the ones `get` applies to
-    let mut probe = false;
-    macro_rules! chk { ($($v:ident),*) => { match g { $(G::$v(_) => { probe = true; })* _ => {} } } }
-    chk!(O0, O1, O2, O3, O4, O5, O6, O7, O8, O9, O10, O11, OW0, OW1, OW2, OW3, OW4, OW5, OW6, OW7, OW8, OW9, OW10, OW11,
-         OWo0, OWo1, OWo2, OWo3, OWo4, OWo5, OWo6, OWo7, OWo8, OWo9, OWo10, OWo11);
-    probe
+    g.is_one()
 }
 
 pub fn gen_script(rng: &mut Rng, len: usize) -> Vec<String> {
